@@ -63,6 +63,11 @@ def _render(env, name, **kw):
 
 
 def native_context(w=None):
+    problems = guarded(_context_problems)
+    return (bool(problems), "; ".join(problems[:3]) or "include/import template families agree with the documented visibility rules")
+
+
+def _context_problems():
     """Native oracle: include/import template families against the documented visibility rules (reference model: an include sees
     context + locals unless `without context`; imports see only globals unless `with context`; a module exports the public
     top-level names; ignore missing suppresses only TemplateNotFound; a name list selects the first that exists)."""
@@ -147,12 +152,22 @@ def native_context(w=None):
             if exp != ["keep"]:
                 problems.append(f"a name rebound by an import must leave the export set: {exp}")
     problems += native_api()
-    return (bool(problems), "; ".join(problems[:3]) or "include/import template families agree with the documented visibility rules")
+    return problems
 
 
 def native_api():
     """runtime.new_context / get_all / get_exported / select_template used directly"""
-    return native_new_context() + native_select()
+    out = []
+    for f in (native_new_context, native_select):
+        out += guarded(f)
+    return out
+
+
+def guarded(f):
+    try:
+        return f()
+    except Exception as ex:  # the family itself must never fail on a correct tree
+        return [f"{f.__name__} failed with {type(ex).__name__}: {str(ex)[:120]}"]
 
 
 def native_new_context():
@@ -200,6 +215,21 @@ def native_select():
             got = type(ex).__name__
         if got != want:
             problems.append(f"select_template({names}) -> {got}, expected {want}")
+    # the requested name (not the parent's) is what gets loaded; join_path(name, parent) may rewrite it
+    class JoinEnv(jinja2.Environment):
+        def join_path(self, template, parent):
+            return parent.rsplit("/", 1)[0] + "/" + template if "/" in parent else template
+
+    je = JoinEnv(loader=jinja2.DictLoader({"d/a": "DA", "a": "A", "d/main": "M"}))
+    for call, want in ((lambda: je.get_template("a", "d/main").name, "d/a"), (lambda: je.get_template("a", "main").name, "a"), (lambda: je.get_template("a").name, "a"),
+                       (lambda: je.select_template(["x", "a"], "d/main").name, "d/a"), (lambda: je.get_or_select_template(["x", "a"], "d/main").name, "d/a"),
+                       (lambda: je.get_or_select_template("a", "d/main").name, "d/a"), (lambda: env.get_template("a", "b").name, "a")):
+        try:
+            got = call()
+        except Exception as ex:
+            got = type(ex).__name__
+        if got != want:
+            problems.append(f"lookup relative to a parent returned {got!r}, expected {want!r}")
     for names in ([], ["x", "y"], [und]):
         try:
             env.select_template(names)
@@ -345,8 +375,9 @@ def install_dict_merge(I):
     I.specs[("fn", id(dict))] = dict_spec
 
 
-def aset(st, prefix, initial=True):
-    dom = z3.Const(fresh_name(prefix + "_dom"), z3.ArraySort(S_, z3.BoolSort()))
+def aset(st, prefix, initial=True, dom=None):
+    if dom is None:
+        dom = z3.Const(fresh_name(prefix + "_dom"), z3.ArraySort(S_, z3.BoolSort()))
     size = z3.Int(fresh_name(prefix + "_size"))
     wit = z3.Const(fresh_name(prefix + "_wit"), S_)
     q = z3.Const(fresh_name("q"), S_)
@@ -745,10 +776,9 @@ class DefaultModule(CtxVC):
             a, b = args
             if isinstance(a, Ref) and isinstance(st.get(a), HSet) and isinstance(b, KeysView):
                 ha = st.get(a)
-                r = aset(st, "extra_keys", initial=False)
                 q = z3.Const(fresh_name("q"), S_)
-                st.assume(z3.ForAll([q], z3.Select(st.get(r).dom, q) == z3.And(z3.Select(ha.dom, q), z3.Not(z3.Select(b.dom, q)))))
-                return [(st, r)]
+                dom = z3.Lambda([q], z3.And(z3.Select(ha.dom, q), z3.Not(z3.Select(b.dom, q))))
+                return [(st, aset(st, "extra_keys", initial=False, dom=dom))]
             return None
 
         I.specs[("binop", ast.Sub)] = set_minus
@@ -1652,9 +1682,9 @@ PARSER_TASKS = [CtxParse(m) for m in ("parse_import_context", "parse_include", "
 
 def bounded_task(name, fn, bound):
     def run(task, tier, seed):
-        problems = fn()
+        problems = guarded(fn)
         return [Res(name, "refuted" if problems else "bounded-ok", "native", 0, "; ".join(problems[:3]) or bound, "bounded", {"family": name} if problems else None)]
-    t = FnTask("C05", name, run, "bounded", lambda w: (lambda p: (bool(p), "; ".join(p[:3]) or "family agrees"))(fn()))
+    t = FnTask("C05", name, run, "bounded", lambda w: (lambda p: (bool(p), "; ".join(p[:3]) or "family agrees"))(guarded(fn)))
     t.bound_text = bound
     return t
 
